@@ -161,6 +161,45 @@ func c33(x *Ctx) {
 	}
 	c.Min(r1d, 1)
 
+	// ---- clause 1e: a counter baseline belongs to the sampler it was read from ------------------------------------
+	// (the dynsampler counters are exported as deltas against the values remembered by the recorder; the recorder
+	// that is registered together with a newly created dynsampler must be a new one initialised from that very
+	// instance – a recorder kept from the instance's predecessor holds the predecessor's totals, the first delta
+	// after a reload is negative and the exported counter goes down)
+	const r1e = "C33.delta-baseline-fresh"
+	recF := eng.FieldIs("sample", "sharedDynsamplerEntry", "recorder")
+	doneRec := map[string]bool{}
+	for _, f := range x.PkgFuncs("sample") {
+		for _, w := range eng.FieldWrites([]*ssa.Function{f}, recF) {
+			if doneRec[BaseName(f)] {
+				continue // one instantiation of a generic function stands for all of them
+			}
+			doneRec[BaseName(f)] = true
+			st := w.Instr.(*ssa.Store)
+			c.Examined++
+			var made *ssa.Alloc
+			fresh := x.mustDerive(st.Val, func(v ssa.Value) bool {
+				a, ok := v.(*ssa.Alloc)
+				if ok && a.Heap && a.Parent() == f {
+					made = a
+				}
+				return ok && a.Heap && a.Parent() == f
+			})
+			// … and initialised (RegisterMetrics) before it is published
+			inited := false
+			if fresh && made != nil {
+				for _, ref := range *made.Referrers() {
+					if cl, ok := ref.(ssa.CallInstruction); ok && strings.HasSuffix(eng.CalleeName(cl), ".RegisterMetrics") && eng.Dominates(ref, st) {
+						inited = true
+					}
+				}
+			}
+			c.Decide(fresh && inited, r1e, BaseName(f)+"/recorder", x.Pos(st), "the recorder stored with a new dynsampler is created and initialised from it in the same call",
+				"the metrics recorder stored with a newly created dynsampler is not a new one initialised from that instance (it can come from remembered state): it keeps the previous instance's totals as its baseline, so the first deltas after the samplers are rebuilt are negative and exported counters decrease")
+		}
+	}
+	c.Min(r1e, 1)
+
 	// ---- clause 1c: up/down values are kept signed ------------------------------------------------------------------
 	const r1c = "C33.updown-signed"
 	updF := eng.FieldIs("metrics", "MultiMetrics", "updowns")
